@@ -225,7 +225,7 @@ def conds(tier):
     return [
         xh.Cond(M, "c07_corruption", t(420, 2400), kind="shape-bounded", path_timeout=60, examples=["kind=3, k=17, s=0", "kind=0, k=5, s=0", "kind=4, k=30, s=2"],
                 bounds="5 corruption kinds x %s token positions%s, 6 entry points each" % (("all %d" % NB) if not q else ("every third of %d" % NB), " x 5 stray tokens per position" if not q else " (stray token derived)")),
-        xh.Cond(M, "c07_multifile", t(200, 600), kind="shape-bounded", examples=["cut1=2, cut2=4, rot=0", "cut1=1, cut2=1, rot=3", "cut1=0, cut2=3, rot=5"],
+        xh.Cond(M, "c07_multifile", t(200, 600), kind="shape-bounded", examples=["cut1=2, cut2=4, rot=0", "cut1=1, cut2=1, rot=3", "cut1=0, cut2=3, rot=5", "cut1=2, cut2=2, rot=1", "cut1=3, cut2=6, rot=0"],
                 bounds="6 top-level declarations in 6 rotations, split into 1-3 files at every pair of cut points"),
         xh.Cond(M, "c07_validation", t(120, 300), kind="shape-bounded", examples=["i=0", "i=4"], bounds="%d rule violations x 6 entry points" % NI),
     ]
